@@ -3,6 +3,21 @@ import json, os
 V = os.path.dirname(os.path.dirname(os.path.abspath(__file__)))
 
 CHECKS = {
+ "C10": dict(
+   technique="TLA+ comparison actions and shape rules in UTPMachine + dispatch table spec (Dispatch.tla), TLC-generated behaviours replayed; NumPy executed on the zeroth coefficients as the reference the property names",
+   text="Comparison truth values are computed by the spec (NumPy comparison of zeroth coefficients over all elements and directions, with broadcasting) for all behaviours of the bounded machine and compared with bool(x rel y); every TLC-generated behaviour is re-run by NumPy on the zeroth coefficients of each direction and shape/len/size/ndim and the zeroth coefficient of every object must agree after each action; 80 further functions (elementary, special, linear algebra, factorizations with NumPy's signs and pivots, fft, tile, dtype mixes) x shapes x (D,P) are compared with NumPy/SciPy per direction; the dispatch table (first argument providing the method wins, else numpy / numpy.linalg / scipy.linalg) is model-checked and observed through result types and bit-identical plain results.",
+   note="relational for transcendental and factorization operations (NumPy/SciPy as reference, as stated by the property); != is Python's default negation of == and not claimed; known finding: prod of a polynomial with >= 2 array dimensions raises",
+   design="4 (C10)"),
+ "C11": dict(
+   technique="direction independence by construction in every TLA+ module (coefficients defined per direction) + exact multi-direction replays with different base points per direction + relational re-run of every TLC-generated behaviour on each single direction",
+   text="All TLC-generated multi-direction behaviours of the machine (P = 2, 3) are re-run on every single direction and compared coefficient by coefficient; the linear-algebra and factorization instances are packed pairwise as two directions with DIFFERENT base matrices and compared with their exact expectations; 25 further operations (max, prod, det with differing pivots, rank-deficient/wide QR, eigh, svd, expm, constants with more axes than the polynomial), CGraph.jacobian(UTPM) and reverse sweeps with P in {2,3} are compared with single-direction runs.",
+   note="the relational part compares two executions of the real code (the property's own formulation); exact expectations for the spec-covered fragment",
+   design="4 (C11)"),
+ "C12": dict(
+   technique="truncation theorems model-checked in TLC (MC_TPS TruncLaw, C-matrix leading block) + every TLC-generated behaviour re-run at every D' < D + functions evaluated at every D' against the leading block of the spec's C-matrix",
+   text="TLC proves Trunc(op(x..),D') = op(Trunc(x,D')..) for product, quotient and composition and that the C-matrix for D' is the leading block of that for D; every behaviour of the machine at D = 3,4 is re-run on inputs truncated to each D' < D; every elementary/special function is compared at every D' <= D with the exact expectation; 30 operations (incl. factorizations with repeated eigenvalues, x**y, in-place forms, abs at an exact zero, extract_* read from longer propagations) and reverse sweeps (incl. seeds with vanishing low-order coefficients) are compared between D and every D' < D; D = 1 equals the plain NumPy value (C10 zeroth mode).",
+   note="relational for operations without an exact spec value",
+   design="4 (C12)"),
  "C08": dict(
    technique="TLA+ spec constructing factorization instances FROM exact rational factor series (Factor.tla: Cayley transform of skew series for orthogonal factors) with the defining identities model-checked; instances replayed through algopy.qr/qr_full/cholesky/lu/eigh/svd/eig",
    text="TLC builds, for every base orthogonal/permutation matrix, eigenvalue splitting pattern and coefficient pattern of the catalogue, A(t) = Q(t)R(t), L L^T, P L U, Q Lambda Q^T, U diag(s) V^T, X Lambda X^-1 as exact rational series and checks the identities of the factors. algopy's results must (a) agree with NumPy/SciPy at order 0, (b) reproduce the constructed unique factor series up to the constant sign convention, (c) satisfy the defining equations at every order, (d) have the triangular/diagonal/permutation structure - for square, tall, wide and full QR, Cholesky, LU with all six 3x3 row permutations, eigh with distinct eigenvalues and with repeated ones splitting at order 1, 2, never, and in two stages, SVD 3x2, eig at D=2; single instances and pairs packed as two directions with different base matrices; sparse patterns (a whole order of factor coefficients zero) and matrices scaled by 1e-9.",
